@@ -581,7 +581,7 @@ fn cli_worlds_lane(base: u64, n: u64, workers: usize) -> CliLane {
     let mut hs = Vec::new();
     for w in 0..workers {
         let (next, out, fixtures) = (next.clone(), out.clone(), fixtures.clone());
-        hs.push(std::thread::spawn(move || {
+        hs.push(std::thread::Builder::new().stack_size(512 << 20).spawn(move || {
             let env = cli_env(w);
             let mut oracle = vsim::oracle::Oracle::new();
             let params = vsim::clisim::workload::GenParams { focus: vsim::clisim::workload::Focus::C16, max_large: 70_000, fixtures };
@@ -682,7 +682,7 @@ fn cli_worlds_lane(base: u64, n: u64, workers: usize) -> CliLane {
                 }
             }
             let _ = std::fs::remove_dir_all(&env.base);
-        }));
+        }).expect("spawn"));
     }
     for h in hs {
         let _ = h.join();
@@ -1394,6 +1394,12 @@ fn cmd_digests(args: &[String]) -> i32 {
 }
 
 fn main() {
+    // everything runs on a thread with a big stack: the oracle formats very deeply nested documents
+    let h = std::thread::Builder::new().stack_size(512 << 20).spawn(real_main).expect("spawn main");
+    let _ = h.join();
+}
+
+fn real_main() {
     let args: Vec<String> = std::env::args().skip(1).collect();
     let code = match args.first().map(|s| s.as_str()) {
         Some("run") => cmd_run(&args[1..]),
